@@ -45,6 +45,20 @@ def run(tier):
                           'observed': b['observed'], 'spec': 'AsJson!Out'}, key='graph' + str(b['observed'])[:25])
     ck.count(evaluations=len(graphs), traces=len(graphs), nontrivial=len(graphs))
     ck.sample({'graph': graphs[len(graphs) // 2]})
+    # "shared and cyclic references rendered as references": the walk of the code (and of AsJson!Out, which the replay above holds it to) keeps
+    # the current path only, so a container shared by two siblings is written out twice.  SharedAsRefs must be refuted by TLC (KF-C14-9);
+    # the graphs concerned are those with dup > 0 - their real output was just compared with Out, i.e. it does contain the duplicate.
+    rs = tlc.run_tlc('AsJson', cfg='AsJsonShared', timeout=600)
+    ck.notes['shared_as_refs_refuted_by'] = rs.violated
+    if rs.violated != 'SharedAsRefs':
+        raise tlc.MachineryError(f'AsJson: SharedAsRefs is not refuted for the on-path walk ({rs.violated})')
+    dups = [g for g in graphs if isinstance(g, dict) and g.get('dup')]
+    ck.notes['graphs_with_a_container_written_twice'] = len(dups)
+    for g in dups:
+        if not ck.known('KF-C14-9', f"graph kind={g['kind']} kids={g['kids']}: {g['dup']} container(s) written out more than once"):
+            ck.violation({'kind': 'point', 'inputs': {'graph': {k: g[k] for k in ('kind', 'kids')}}, 'expected': 'a shared container is rendered once, then as a reference',
+                          'observed': g['out'], 'why': 'asjson() writes a container that two siblings share out in full twice', 'spec': 'AsJson!SharedAsRefs'},
+                         key='asjsonshared')
     # ---- grammar model round trips
     rnd = random.Random(14000 + ck.seed)
     cases = [{'label': 'full/' + n, 'ebnf': e, 'texts': t} for n, e, t in FULL]
